@@ -8,7 +8,6 @@ package grace
 
 //@ func (*realGraceExpectations).SatisfiedExpectations
 //@ props C07
-//@ requires r != nil
 //@ ensures unsatisfied_has_positive_wait: (result0 ==> result1 == 0) && (!result0 ==> result1 > 0)
 
 // C07 (no lost wake-up, per call): a retry that is not an error always carries a positive requeue delay, so the caller's
